@@ -214,7 +214,8 @@ Section Expand.
                 end
             end
     | HNewtheorem =>
-        do a0 <- arg args 0; do a2 <- arg args 2;
+        (* arguments: star, name, [counter], title, [within] *)
+        do a0 <- arg args 1; do a2 <- arg args 3;
         do r0 <- get_text_expanded st a0;
         do r2 <- get_text_expanded (fst r0) a2;
         let st := fst r2 in
@@ -432,6 +433,12 @@ Section Expand.
     end.
 
   (* returns the tokens to be inserted and the rest of the buffer *)
+  Fixpoint drop_space_toks (buf : list tok) : list tok :=
+    match buf with
+    | t :: r => match tk t with KSpace => drop_space_toks r | _ => buf end
+    | [] => []
+    end.
+
   Definition expand_arguments (fuel : nat) (st : pstate) (buf : list tok)
                               (mac : macro) (start : Z)
     : Res (list tok * list tok) :=
@@ -447,6 +454,12 @@ Section Expand.
     match m_repl mac with
     | RHandler h =>
         do r <- run_handler fuel h st rest (m_name mac) args start;
+        (* a theorem heading with title consumes the white space behind the
+           option (handlers.h_theorem) *)
+        let rest := match h, args with
+                    | HTheorem _, (_ :: _) :: _ => drop_space_toks rest
+                    | _, _ => rest
+                    end in
         Ok (fst r, (ActionT start :: snd r, rest))
     | RToks body =>
         do g <- generate_replacements args body start;
